@@ -564,3 +564,99 @@ def directed_cases(ctx, tag, n, history, versions, length=(20, 60), mqtt_rate=0.
         ops = history(rng, cfg, rng.randrange(*length))
         cases.append({"id": f"{tag}-{ctx.seed}-{ctx.scale}-{i}", "cfg": cfg, "ops": ops})
     return cases
+
+
+# ------------------------------------------------------------------------------------------------
+# Hand-seeded corpus: short histories that walk the paths the properties are about (and the defects
+# D1, D2, D4, D5 of DESIGN.md section 9 plus the 16-bit update check) deterministically.
+
+def _R(line):
+    return ("recv", line)
+
+
+def _S(n, c, vt, v):
+    return ("setchild", n, c, vt, v, None, None)
+
+
+_IMG20 = list(range(1, 21))
+_IMG130 = [(7 * i + 3) % 256 for i in range(130)]
+
+SEEDED = {
+    # child presented after the first wake-up: req / set / set_child_value on it; int and str value types
+    "late-child": (["2.1"], [
+        _R("1;255;0;0;17;2.1"), _R("1;0;0;0;3;d"), _R("1;0;1;0;2;1"), _R("1;255;3;0;22;500"),
+        _R("1;5;0;0;3;late"), _R("1;5;1;0;2;0"), _R("1;5;2;0;2;"), _S(1, 5, 2, "1"), _R("1;255;3;0;22;500"),
+        _S(1, 5, "2", 1), _S(1, 0, " 2 ", "0"), _R("1;5;2;1;2;"), _R("1;0;2;0;2;"), _R("1;255;3;0;22;500"),
+        _R("1;5;1;0;2;1"), _R("1;255;3;0;22;500"), _R("1;0;1;1;2;0"), _R("1;255;3;0;22;500")]),
+    # id-assigned node (version floor 1.4) on a newer gateway: sub-type 22 is binary for the node, a word for the gateway
+    "old-node": (["2.0", "2.2"], [
+        _R("255;255;3;0;3;"), _R("1;1;0;0;29;hvac"), _R("1;1;1;0;22;Auto"), _R("1;1;1;0;21;Off"), "WAKE 1",
+        _S(1, 1, 22, "1"), _S(1, 1, "21", "HeatOn"), _S(1, 1, 22, "Auto"), _S(1, 1, 2, "1"), "WAKE 1", "WAKE 1",
+        _R("1;1;1;0;21;HeatOn"), "WAKE 1", _R("1;1;2;0;2;"), "WAKE 1"]),
+    # two nodes: replies of every kind withheld for the sleeper, the other node answered at once; order of the burst
+    "burst-order": (["2.0", "2.1", "2.2"], [
+        _R("1;255;0;0;17;SAME"), _R("1;0;0;0;3;a"), _R("1;1;0;0;6;b"), _R("2;255;0;0;17;SAME"), _R("2;0;0;0;3;c"),
+        _R("1;0;1;0;3;50"), _R("1;1;1;0;0;21.5"), _R("1;1;1;0;47;hello"), _R("2;0;1;0;2;1"), "WAKE 1",
+        _R("1;255;3;0;6;0"), ("clock", 1700000000), _R("1;255;3;0;1;"), _R("1;9;1;0;2;1"), _R("2;0;2;0;2;"),
+        ("updatefw", [1], 1, 1, _IMG20), _R("1;0;1;0;3;60"), _S(1, 0, 3, 70), _S(1, 1, "47", "a;b"), _S(1, 1, 0, 22),
+        _S(2, 0, 2, "0"), _R("1;0;2;0;3;"), _R("1;255;4;0;0;0100010008000000" + "0201"), "WAKE 2", _S(9, 0, 2, "1"),
+        "WAKE 1", "WAKE 1", _R("1;1;1;0;0;22"), _R("1;255;0;0;17;SAME"), _R("1;0;1;0;3;70"), "WAKE 1", "WAKE 1"]),
+    # a whole OTA session, repeated config, refusal after the fetch started, restart from stored firmware, reboot window
+    "ota-session": (["1.4", "2.0", "2.2"], [
+        _R("1;255;0;0;17;SAME"), _R("1;0;0;0;3;a"), _R("1;255;4;0;0;01000100080000000201"), _R("1;255;4;0;2;010001000000"),
+        ("updatefw", [1], 1, 1, _IMG20), _R("1;0;1;0;3;50"), _R("1;255;4;0;2;010001000000"),
+        _R("1;255;4;0;0;01000100080000000201"), _R("1;255;4;0;0;0100010008000000020A")] +
+        [_R("1;255;4;0;2;01000100%02x00" % i) for i in range(8)] +
+        [_R("1;255;4;0;2;010001000800"), _R("1;255;4;0;2;01000100FFFF"), _R("1;255;4;0;0;01000100080000000201"),
+         ("updatefw", [1], 1, 1, None), _R("1;255;4;0;2;010001000000"), _R("1;255;4;0;0;01000100080000000201"),
+         _R("1;255;4;0;2;020001000000"), _R("1;255;0;0;17;SAME"), _R("1;0;1;0;3;51"), _R("1;255;4;0;2;010001000100")]),
+    # every malformed class in the states Requested, Offered and Fetching
+    "ota-malformed": (["1.5", "2.1"], [
+        _R("1;255;0;0;17;SAME"), _R("1;0;0;0;3;a"), ("updatefw", [1], 2, 1, _IMG130)] +
+        [_R("1;255;4;0;0;" + p) for p in ["0200010018000000020", "02000100180000000zz1", "020001001800000002010000", "", "é200010018000000020 1"]] +
+        [_R("1;255;4;0;0;02000100180000000201")] +
+        [_R("1;255;4;0;2;" + p) for p in ["02000100000", "0200010000zz", "02000100000000", "ffffffff", "", "0x0001000000", "é20001000000"]] +
+        [_R("1;255;4;0;2;020001001700")] +
+        [_R("1;255;4;0;2;" + p) for p in ["02000100000", "0200010000zz", "02000100 000"]] +
+        [_R("1;255;4;0;0;0200010018000000020"), _R("1;255;4;0;2;02000100180 "), _R("1;255;4;0;2;0200010017 ")]),
+    # update calls that must not schedule anything, and the ones that must
+    "ota-updates": (["2.0"], [
+        _R("1;255;0;0;17;SAME"), _R("1;0;0;0;3;a"), _R("2;255;0;0;17;SAME"), ("updatefw", [1], 1, 1, None),
+        ("updatefw", [9], 1, 1, _IMG20), ("updatefw", [1], 70000, 1, _IMG20), ("updatefw", [1], 1, -1, _IMG20),
+        ("updatefw", [1], "x", 1, _IMG20), ("updatefw", [1], 65536, 65536, _IMG20), ("updatefw", [1], 1, 1, []),
+        _R("1;255;4;0;0;01000100080000000201"), _R("1;0;1;0;3;50"), ("updatefw", [1, 9, 2], "7", 1, _IMG20),
+        _R("1;255;4;0;0;01000100080000000201"), _R("2;255;4;0;0;01000100080000000201"), _R("1;0;1;0;3;51"),
+        ("updatefw", [], 7, 1, None), ("updatefw", [2, 2], 1, 1, None), _R("2;255;4;0;2;070001000000"),
+        _R("2;255;4;0;0;01000100080000000201"), _R("2;255;4;0;2;070001000000"), _R("2;255;4;0;2;030003000000")]),
+}
+
+CORPUS = {"C07": ["late-child", "old-node", "burst-order"], "C08": ["late-child", "old-node", "burst-order"],
+          "C10": ["ota-session", "ota-malformed", "ota-updates", "burst-order"]}
+
+
+def corpus_cases(prop):
+    """The seeded histories of `prop` for every listed version, asyncio + threaded (pump after every op) +
+    threaded with all pumps at the end."""
+    cases = []
+    for name in CORPUS[prop]:
+        vers, ops = SEEDED[name]
+        for ver in vers:
+            wake = 32 if ver == "2.2" else 22
+            conc = []
+            for o in ops:
+                if isinstance(o, str):
+                    o = _R(f"{o.split()[1]};255;3;0;{wake};500")
+                elif o[0] == "recv":
+                    o = _R(o[1].replace("SAME", ver))
+                conc.append(o)
+            for flavour, style in (("async", ""), ("sync", "each"), ("sync", "late")):
+                if style == "each":
+                    seq = [x for o in conc for x in (o, ("pump",), ("pump",))] + [("pump",)] * 8
+                elif style == "late":
+                    seq = conc + [("pump",)] * (3 * len(conc))
+                else:
+                    seq = list(conc)
+                cases.append({"id": f"{prop}-seed-{name}-{ver}-{flavour}{style}",
+                              "cfg": {"ver": ver, "flavour": flavour, "callback": True, "cb_raises": False, "mqtt": False},
+                              "ops": seq})
+    return cases
